@@ -4,7 +4,8 @@ d=$(mktemp -d /tmp/tryfix_XXXXXX)
 trap 'rm -rf "$d"' EXIT INT TERM
 rsync -a --exclude=.git --exclude='*.o' --exclude=/chibicc --exclude=/stage2 --exclude='*.exe' --exclude='/tmp*' /repo/ "$d"/
 for p in "$@"; do
-  (cd "$d" && patch -p1 -s --no-backup-if-mismatch < "$(readlink -f "$p")") || { echo "TRYFIX: $p does not apply"; exit 2; }
+  ap=$(readlink -f "$p")
+  (cd "$d" && patch -p1 -s --no-backup-if-mismatch < "$ap") || { echo "TRYFIX: $p does not apply"; exit 2; }
 done
 /verif/tools/repotest.sh "$d" test || exit 1
 /verif/tools/repotest.sh "$d" test-stage2 || exit 1
